@@ -97,10 +97,12 @@ func runC10(c *eng.Ctx) {
 		if op == nil || ix == nil {
 			c.Undecided("packages not loaded")
 		}
-		a, ok1 := typeSwitchCases(op, funcDecl(op, "findTagValueIDsByExpr", "tagValuesLookup"))
-		b, ok2 := typeSwitchCases(op, funcDecl(op, "findSeriesIDsByExpr", "seriesFiltering"))
-		if !ok1 || !ok2 {
-			c.Undecided("walker type switches not found")
+		// the kinds a walker distinguishes: the types its expression parameter is tested against (type switch or
+		// comma-ok assertions alike)
+		a := assertedKinds(c.Fn("query/operator.tagValuesLookup.findTagValueIDsByExpr"), 1)
+		b := assertedKinds(c.Fn("query/operator.seriesFiltering.findSeriesIDsByExpr"), 1)
+		if len(a) == 0 || len(b) == 0 {
+			c.Undecided("walker type tests not found")
 		}
 		want := []string{"BinaryExpr", "NotExpr", "ParenExpr", "TagFilter"}
 		for _, k := range want {
@@ -113,9 +115,9 @@ func runC10(c *eng.Ctx) {
 		if tf == nil {
 			c.Undecided("stmt.TagFilter not found")
 		}
-		cases, ok := typeSwitchCases(ix, funcDecl(ix, "FindValuesByExpr", "indexKVStore"))
-		if !ok {
-			c.Undecided("FindValuesByExpr type switch not found")
+		cases := assertedKinds(c.Fn("index.indexKVStore.FindValuesByExpr"), 2)
+		if len(cases) == 0 {
+			c.Undecided("FindValuesByExpr type tests not found")
 		}
 		sp := p.Package("sql/stmt")
 		n := 0
@@ -254,8 +256,7 @@ func runC10(c *eng.Ctx) {
 			{"index.invertedIndex.getSeriesIDs", eng.CallTo("index.invertedIndex.findSeriesIDsByKeyFromMem"), "findSeriesIDsByKeyFromMem", invokeOn("", "Load"), "snapshot.Load", "index.invertedIndex"},
 			{"index.invertedIndex.findSeriesIDsByKeys", eng.CallTo("index.invertedIndex.findSeriesIDsByKeyFromMem"), "findSeriesIDsByKeyFromMem", invokeOn("", "Load"), "snapshot.Load", "index.invertedIndex"},
 			{"index.forwardIndex.findSeriesIDsForTag", eng.CallTo("index.forwardIndex.loadSeriesIDsInMem"), "loadSeriesIDsInMem", invokeOn("", "FindReaders"), "snapshot.FindReaders", "index.forwardIndex"},
-			{"index.forwardIndex.GetGroupingContext", eng.CallTo("index.forwardIndex.getMemGroupingScanners"), "getMemGroupingScanners", eng.CallTo("index.forwardIndex.getGroupingScanners"), "getGroupingScanners(snapshot)", "index.forwardIndex"},
-			{"index.forwardIndex.getGroupingScanners", nil, "memory scanners passed in", invokeOn("", "FindReaders"), "snapshot.FindReaders", ""},
+			{"index.forwardIndex.GetGroupingContext", eng.CallTo("index.forwardIndex.loadSeriesIDsInMem"), "loadSeriesIDsInMem", invokeOn("", "FindReaders"), "snapshot.FindReaders", "index.forwardIndex"},
 			{kvs + ".GetValues", eng.CallTo(kvs + ".getValuesFromMem"), "getValuesFromMem", invokeOn("", "GetBucket"), "reader.GetBucket", kvs},
 			{kvs + ".findValue", eng.CallTo(kvs + ".GetValue"), "GetValue -> getOrCreateValue (memory+persisted lookup, C09)", eng.CallTo(kvs + ".GetValue"), "GetValue", ""},
 			{kvs + ".FindValuesByRegexp", eng.CallTo(kvs + ".findValuesByRegexp"), "findValuesByRegexp(mem)", invokeOn("", "GetBucket"), "reader.GetBucket", kvs},
@@ -341,7 +342,6 @@ func runC10(c *eng.Ctx) {
 			{"index.invertedIndex.findSeriesIDsByKeys", "index.invertedIndex", invokeOn(".family", "GetSnapshot"), true},
 			{"index.forwardIndex.findSeriesIDsForTag", "index.forwardIndex", invokeOn(".family", "GetSnapshot"), true},
 			{"index.forwardIndex.GetGroupingContext", "index.forwardIndex", invokeOn(".family", "GetSnapshot"), true},
-			{"index.forwardIndex.getGroupingScanners", "index.forwardIndex", nil, false}, // receives the snapshot: must not read memory at all
 			{kvsT + ".GetValues", kvsT, eng.CallTo(kvsT + ".getSnapshot"), true},
 			{kvsT + ".FindValuesByRegexp", kvsT, eng.CallTo(kvsT + ".getSnapshot"), true},
 			{kvsT + ".findValuesByLike", kvsT, eng.CallTo(kvsT + ".getSnapshot"), true},
@@ -470,4 +470,34 @@ func emptyMatchIsNotAnError(c *eng.Ctx) {
 	}
 	c.Check(okAll, "every-successful-atom-recorded", put, tl, "every atom whose lookup succeeded (also with no match) gets its entry in TagFilterResult", "a return is reachable after a successful lookup without recording the atom")
 	_ = p
+}
+
+// assertedKinds: the named types the paramIdx-th parameter of fn (an expression) is type-tested against, in fn and the
+// helpers it transparently enters (sorted, unique).
+func assertedKinds(fn *ssa.Function, paramIdx int) []string {
+	if paramIdx >= len(fn.Params) {
+		return nil
+	}
+	prm := ssa.Value(fn.Params[paramIdx])
+	seen := map[string]bool{}
+	for _, b := range eng.BlocksT(fn) {
+		for _, in := range b.Instrs {
+			ta, ok := in.(*ssa.TypeAssert)
+			if !ok {
+				continue
+			}
+			if ta.X != prm && !eng.DependsOn(ta.X, func(x ssa.Value) bool { return x == prm }) {
+				continue
+			}
+			if n := namedOf(ta.AssertedType); n != nil {
+				seen[n.Obj().Name()] = true
+			}
+		}
+	}
+	var out []string
+	for k := range seen {
+		out = append(out, k)
+	}
+	sort.Strings(out)
+	return out
 }
